@@ -133,13 +133,13 @@ def run(ctx):
         cfg = write_cfg(ctx.scratch / ('gen_%s.cfg' % name), consts, invariants=['TypeOK'])
         return ctx.tlc('VFormGen', cfg, workers=workers, simulate=simulate, depth=depth, seed=ctx.seed + 11, timeout=1800)
     pool = ThreadPoolExecutor(6)
-    jobs = [pool.submit(gen, 'core4', dict(Dim=2, MaxTok=4, MaxStack=3, Rich=False, Poly=False, NcU=1, NcV=1)),
-            pool.submit(gen, 'rich2', dict(Dim=2, MaxTok=2, MaxStack=2, Rich=True, Poly=False, NcU=1, NcV=1)),
-            pool.submit(gen, 'sim2', dict(Dim=2, MaxTok=9, MaxStack=3, Rich=True, Poly=False, NcU=1, NcV=1), 20000 if not ctx.thorough else 150000, 14),
-            pool.submit(gen, 'sim3', dict(Dim=3, MaxTok=8, MaxStack=3, Rich=True, Poly=False, NcU=1, NcV=1), 8000 if not ctx.thorough else 60000, 13)]
+    jobs = [pool.submit(gen, 'core4', dict(Dim=2, MaxTok=4, MaxStack=3, Rich=False, Poly=False, NcU=1, NcV=1, Bnd=False)),
+            pool.submit(gen, 'rich2', dict(Dim=2, MaxTok=2, MaxStack=2, Rich=True, Poly=False, NcU=1, NcV=1, Bnd=False)),
+            pool.submit(gen, 'sim2', dict(Dim=2, MaxTok=9, MaxStack=3, Rich=True, Poly=False, NcU=1, NcV=1, Bnd=False), 20000 if not ctx.thorough else 150000, 14),
+            pool.submit(gen, 'sim3', dict(Dim=3, MaxTok=8, MaxStack=3, Rich=True, Poly=False, NcU=1, NcV=1, Bnd=False), 8000 if not ctx.thorough else 60000, 13)]
     if ctx.thorough:
-        jobs.append(pool.submit(gen, 'core5', dict(Dim=2, MaxTok=5, MaxStack=3, Rich=False, Poly=False, NcU=1, NcV=1), None, None, 8))
-        jobs.append(pool.submit(gen, 'rich3', dict(Dim=3, MaxTok=3, MaxStack=2, Rich=True, Poly=False, NcU=1, NcV=1), None, None, 8))
+        jobs.append(pool.submit(gen, 'core5', dict(Dim=2, MaxTok=5, MaxStack=3, Rich=False, Poly=False, NcU=1, NcV=1, Bnd=False), None, None, 8))
+        jobs.append(pool.submit(gen, 'rich3', dict(Dim=3, MaxTok=3, MaxStack=2, Rich=True, Poly=False, NcU=1, NcV=1, Bnd=False), None, None, 8))
     items = []
     seen = set()
     for j in jobs:
